@@ -1,17 +1,29 @@
 #!/usr/bin/env python3
 """Runs the registered checks against the seeded changes kept under /verif/seeded.
 
-usage: seeded_run.py [--tier quick|thorough] [--all-checks] [id ...]
+usage: seeded_run.py [--tier quick|thorough] [--all-checks] [--scratch] [id ...]
 
 For each seeded change: apply seeded/<id>/patch.diff to /repo's working tree, run
 ./check <property> (the property the change breaks; with --all-checks every
 check), record exit status and violation classes, undo the change
 (git -C /repo checkout -- .). Results go to seeded/results.json. /repo must be clean.
+The evidence files of these runs go to .work/seeded-evidence, never to evidence/.
+
+With --scratch the change is applied to a scratch worktree of /repo's HEAD
+(/tmp/vseed/wt, removed afterwards) and the checks are pointed at it with
+VERIF_REPO, so /repo itself is not touched and can be used meanwhile.
 """
 import json, os, re, subprocess, sys, time
 V = os.path.dirname(os.path.abspath(__file__))
 sys.path.insert(0, V)
 from checks_config import PROPS
+
+# which other checks exercise the same code (tried first when a property's own check misses a change)
+RELATED = {
+    "C05": ["C06", "C16", "C09", "C07", "C08"], "C06": ["C05", "C07"], "C07": ["C06", "C05", "C08"], "C08": ["C07", "C05"], "C09": ["C05"],
+    "C16": ["C17", "C05"], "C17": ["C16", "C05"],
+    "C33": ["C34", "C35", "C36"], "C34": ["C33", "C35", "C36"], "C35": ["C36", "C33", "C34"], "C36": ["C35", "C33", "C34"], "C38": ["C35", "C36"],
+}
 
 def sh(cmd, **kw):
     return subprocess.run(cmd, shell=True, stdout=subprocess.PIPE, stderr=subprocess.STDOUT, text=True, **kw)
@@ -20,6 +32,7 @@ def main():
     args = sys.argv[1:]
     tier = "quick"
     allchecks = False
+    scratch = False
     ids = []
     i = 0
     while i < len(args):
@@ -28,11 +41,24 @@ def main():
             tier = args[i]
         elif args[i] == "--all-checks":
             allchecks = True
+        elif args[i] == "--scratch":
+            scratch = True
         else:
             ids.append(args[i])
         i += 1
     ids = ids or sorted(d for d in os.listdir(os.path.join(V, "seeded")) if os.path.isdir(os.path.join(V, "seeded", d)))
-    if sh("git -C /repo status --porcelain --untracked-files=no").stdout.strip():
+    repo = "/repo"
+    env = dict(os.environ, VERIF_EVIDENCE_DIR=os.path.join(V, ".work", "seeded-evidence"))
+    if scratch:
+        repo = "/tmp/vseed/wt"
+        sh("git -C /repo worktree remove --force " + repo)
+        os.makedirs("/tmp/vseed", exist_ok=True)
+        a = sh("git -C /repo worktree add -q --detach %s HEAD" % repo)
+        if a.returncode != 0:
+            print("cannot create scratch worktree:", a.stdout)
+            sys.exit(2)
+        env["VERIF_REPO"] = repo
+    elif sh("git -C /repo status --porcelain --untracked-files=no").stdout.strip():
         print("refusing: /repo has uncommitted changes")
         sys.exit(2)
     rpath = os.path.join(V, "seeded", "results.json")
@@ -40,7 +66,7 @@ def main():
     for mid in ids:
         prop = mid.split("-")[0]
         patch = os.path.join(V, "seeded", mid, "patch.diff")
-        a = sh("git -C /repo apply " + patch)
+        a = sh("git -C %s apply %s" % (repo, patch))
         if a.returncode != 0:
             print(mid, "patch does not apply:", a.stdout)
             results.setdefault(mid, {})["apply_error"] = a.stdout
@@ -52,7 +78,7 @@ def main():
                 chk = checks[idx]
                 idx += 1
                 t0 = time.time()
-                r = sh("./check %s %s" % (chk, tier), cwd=V)
+                r = sh("./check %s %s" % (chk, tier), cwd=V, env=env)
                 classes = sorted(set(re.findall(r"^violation class=(\S+)", r.stdout, re.M)))
                 rec = {"exit": r.returncode, "classes": classes, "wall_s": round(time.time() - t0, 1), "tier": tier}
                 if r.returncode == 2:
@@ -61,12 +87,15 @@ def main():
                 print(mid, chk, rec, flush=True)
                 if not allchecks and chk == prop and r.returncode == 0 and idx == len(checks):
                     # the property's own check misses it: does any other check see it?
-                    checks += [c for c in sorted(PROPS) if c != prop]
+                    near = RELATED.get(prop, [])
+                    checks += near + [c for c in sorted(PROPS) if c != prop and c not in near]
                 if chk != prop and r.returncode == 1:
                     break
         finally:
-            sh("git -C /repo checkout -- .")
+            sh("git -C %s checkout -- ." % repo)
         json.dump(results, open(rpath, "w"), indent=1, sort_keys=True)
+    if scratch:
+        sh("git -C /repo worktree remove --force " + repo)
     if sh("git -C /repo status --porcelain --untracked-files=no").stdout.strip():
         print("WARNING: /repo not clean after run")
 
